@@ -503,3 +503,42 @@ def _validators_written_once(p: Program, rep: Report) -> None:
     if not hit:
         rep.ok("R14.6", f"ETag / Last-Modified are written by generate_common_headers only: no other function of the package ({n_scanned} scanned) pops, deletes or stores them")
     rep.require_instances("R14.6", 1)
+
+    # ---------------------------------------------------------------- R14.7 validators are computed afresh for every request
+    # A 304 is only right if the tag / time compared is that of the file as it is NOW. Nothing on the way from os.stat() to the
+    # comparison and to the emitted headers may be remembered across requests: no functools cache on a function of the file
+    # response / static-file modules (a key containing os.stat_result compares as its 10-integer tuple - whole seconds only - and a
+    # key without it never expires), and no request-time method of the long-lived app objects writes state into the app.
+    from ..common import memoised as _memo14
+    n14 = 0
+    mods14 = [m_ for m_ in p.modules.values() if m_.name in ("baize.responses", "baize.staticfiles", "baize.wsgi.responses", "baize.asgi.responses", "baize.wsgi.staticfiles", "baize.asgi.staticfiles")]
+    for m_ in mods14:
+        for f_ in m_.all_funcs:
+            for loc_, how_ in _memo14(p, f_):
+                n14 += 1
+                rep.violation("R14.7", construct(f_, text="memoised: " + how_.split("(")[0]), loc_,
+                              f"{f_.fq} is wrapped in a functools cache ({how_[:50]}): headers / validators of a file are answered from the cache - arguments that compare equal (an os.stat_result "
+                              "compares as whole-second integers) give the ETag / Last-Modified of an EARLIER state of the file, so a current copy does not revalidate or a stale one does")
+    base14 = p.cls("baize.staticfiles:BaseFiles")
+    for ci_ in [base14] + list(p.subclasses(base14)):
+        for f_ in dict.values(ci_.methods):
+            if f_.name in ("__init__", "__new__", "__init_subclass__"):
+                continue
+            for n in ast.walk(f_.node):
+                tgt = None
+                if isinstance(n, (ast.Assign, ast.AugAssign)):
+                    for t in (n.targets if isinstance(n, ast.Assign) else [n.target]):
+                        b_ = t.value if isinstance(t, ast.Subscript) else t
+                        if isinstance(b_, ast.Attribute) and isinstance(b_.value, ast.Name) and b_.value.id == f_.params[0]:
+                            tgt = b_
+                elif isinstance(n, ast.Call) and isinstance(n.func, ast.Attribute) and n.func.attr in ("setdefault", "update", "append", "add", "pop", "clear", "__setitem__") \
+                        and isinstance(n.func.value, ast.Attribute) and isinstance(n.func.value.value, ast.Name) and n.func.value.value.id == f_.params[0]:
+                    tgt = n.func.value
+                if tgt is not None:
+                    n14 += 1
+                    rep.violation("R14.7", construct(f_, text=f"request-time state in {ast.unparse(tgt)}"), where(f_, n),
+                                  f"{f_.fq} writes `{ast.unparse(tgt)}` while serving a request: the static-file app remembers something about a file across requests (a memo of tags / stats): "
+                                  "a later request is judged against remembered instead of current validators")
+    if n14 == 0:
+        rep.ok("R14.7", f"no functools cache on {sum(len(m_.all_funcs) for m_ in mods14)} functions of the file-response / static-file modules and no request-time write to the app objects")
+    rep.require_instances("R14.7", 1)
